@@ -334,6 +334,11 @@ func getTagType(v reflect.Value) (byte, reflect.Value) {
 
 	switch v.Kind() {
 	case reflect.Array, reflect.Slice:
+		// A slice of interface values is what a TagList decodes to: it is always
+		// written as a list. Only slices of plain integers become typed arrays.
+		if v.Type().Elem().Kind() == reflect.Interface {
+			return TagList, v
+		}
 		var elemType byte
 		if v.Len() > 0 {
 			var elem reflect.Value
